@@ -308,7 +308,7 @@ theorem project_cartesian_float {a b : Geonum F} (ha : a.angle.Inv) (hb : b.angl
     ∃ M : ℝ, val (a.project b).mag * Real.cos (Angle.Tpi (a.project b).angle) = M * Real.cos (Angle.Tpi b.angle) ∧
       val (a.project b).mag * Real.sin (Angle.Tpi (a.project b).angle) = M * Real.sin (Angle.Tpi b.angle) ∧
       |M - val a.mag * Real.cos (Angle.Tpi b.angle - Angle.Tpi a.angle)| ≤ val a.mag * (val (e10 : F) + 1 / 10 ^ 14) + 1 / 10 ^ 30 ∧
-      Fin (a.project b).mag := by
+      Fin (a.project b).mag ∧ (M = val (a.project b).mag ∨ M = -val (a.project b).mag) := by
   have ps := project_structure a b hbm
   simp only at ps
   obtain ⟨hfp, hp1, hclose⟩ := Angle.project_float ha hb
@@ -323,7 +323,7 @@ theorem project_cartesian_float {a b : Geonum F} (ha : a.angle.Inv) (hb : b.angl
     have hcl : |val (fabs (a.angle.project b.angle)) - Real.cos (Angle.Tpi b.angle - Angle.Tpi a.angle)| ≤ val (e10 : F) + 8 / 10 ^ 15 := by
       rw [hva, abs_of_nonneg hf0]; exact hclose
     obtain ⟨hfm, hmm⟩ := mul_unit_float hm hm0 hfa hc1 hcl
-    refine ⟨val (a.project b).mag, by rw [ps.2.1 h], by rw [ps.2.1 h], ?_, by rw [ps.1]; exact hfm⟩
+    refine ⟨val (a.project b).mag, by rw [ps.2.1 h], by rw [ps.2.1 h], ?_, by rw [ps.1]; exact hfm, Or.inl rfl⟩
     rw [ps.1]; linarith
   · have h' : fge (a.angle.project b.angle) (zero : F) = false := by simpa using h
     have hf0 : val (a.angle.project b.angle) < 0 := by
@@ -340,7 +340,7 @@ theorem project_cartesian_float {a b : Geonum F} (ha : a.angle.Inv) (hb : b.angl
     obtain ⟨hT, _⟩ := Geonum.Tpi_negate hb
     have hang : Angle.Tpi (a.project b).angle = Angle.Tpi b.angle + Real.pi := by rw [ps.2.2.1 h']; exact hT
     refine ⟨-val (a.project b).mag, by rw [hang, Real.cos_add_pi]; ring, by rw [hang, Real.sin_add_pi]; ring, ?_,
-      by rw [ps.1]; exact hfm⟩
+      by rw [ps.1]; exact hfm, Or.inr rfl⟩
     rw [ps.1]
     have e : -val (fmul a.mag (fabs (a.angle.project b.angle))) - val a.mag * Real.cos (Angle.Tpi b.angle - Angle.Tpi a.angle)
         = -(val (fmul a.mag (fabs (a.angle.project b.angle))) - val a.mag * -Real.cos (Angle.Tpi b.angle - Angle.Tpi a.angle)) := by ring
@@ -356,7 +356,7 @@ theorem reject_orthogonal_float {a b : Geonum F} (ha : a.angle.Inv) (hb : b.angl
       ≤ 2 * ((val a.mag + val (a.project b).mag) * (2 / 10 ^ 7 + 11 / 10 * (val (e10 : F)
           + (40 * ((a.angle.blade + (a.project b).angle.blade + 2 : ℕ) : ℝ) + 170) * (1 / 2 ^ 53))) + 1 / 10 ^ 28 + 2 * val (e10 : F))
         + (val a.mag * (val (e10 : F) + 1 / 10 ^ 14) + 1 / 10 ^ 30) := by
-  obtain ⟨M, hX, hY, hM, hfp⟩ := project_cartesian_float ha hb hma.1 hma.2.1 hbm
+  obtain ⟨M, hX, hY, hM, hfp, _⟩ := project_cartesian_float ha hb hma.1 hma.2.1 hbm
   obtain ⟨hpinv, _, _⟩ := project_angle (a := a) hbm hb
   have hg := gradeAngle_fin (geometricSub_inv hb ha)
   obtain ⟨hp0, hp1⟩ := project_mag_bounds hma.1 hma.2.1 hbm hg
@@ -400,6 +400,97 @@ theorem reject_orthogonal_float {a b : Geonum F} (ha : a.angle.Inv) (hb : b.angl
   have := abs_add_three ((Xr + M * c - val a.mag * Real.cos (Angle.Tpi a.angle)) * c)
     ((Yr + M * s - val a.mag * Real.sin (Angle.Tpi a.angle)) * s) (val a.mag * Real.cos (Angle.Tpi b.angle - Angle.Tpi a.angle) - M)
   linarith
+
+/-- Pythagoras from the three Cartesian facts: `P = M·(c, s)`, `P + R = A` up to `B` per component, `R·(c, s)` small -/
+theorem pyth_real {A R M c s Xa Ya Xr Yr B D : ℝ} (hcs : c * c + s * s = 1) (hA : Xa * Xa + Ya * Ya = A * A) (hR : Xr * Xr + Yr * Yr = R * R)
+    (hA0 : 0 ≤ A) (hB0 : 0 ≤ B) (hxa : |Xa| ≤ A) (hya : |Ya| ≤ A)
+    (ex : |Xr + M * c - Xa| ≤ B) (ey : |Yr + M * s - Ya| ≤ B) (hd : |Xr * c + Yr * s| ≤ D) :
+    |A * A - R * R - M * M| ≤ 2 * |M| * D + 4 * B * A + 2 * (B * B) := by
+  obtain ⟨u, hu⟩ : ∃ u : ℝ, u = Xr + M * c - Xa := ⟨_, rfl⟩
+  obtain ⟨v, hv⟩ : ∃ v : ℝ, v = Yr + M * s - Ya := ⟨_, rfl⟩
+  obtain ⟨d, hdd⟩ : ∃ d : ℝ, d = Xr * c + Yr * s := ⟨_, rfl⟩
+  rw [← hu] at ex; rw [← hv] at ey; rw [← hdd] at hd
+  have key : A * A - R * R - M * M = 2 * M * d - 2 * u * Xa - 2 * v * Ya - u * u - v * v := by
+    have hXr : Xr = Xa + u - M * c := by rw [hu]; ring
+    have hYr : Yr = Ya + v - M * s := by rw [hv]; ring
+    have hMM : M * M = M * M * (c * c + s * s) := by rw [hcs, mul_one]
+    rw [← hA, ← hR, hdd, hXr, hYr]
+    nlinarith [hMM]
+  rw [key]
+  have t1 : |2 * M * d| ≤ 2 * |M| * D := by
+    rw [abs_mul, abs_mul, abs_of_pos (by norm_num : (0:ℝ) < 2)]
+    exact mul_le_mul_of_nonneg_left hd (by positivity)
+  have t2 : |2 * u * Xa| ≤ 2 * B * A := by
+    rw [abs_mul, abs_mul, abs_of_pos (by norm_num : (0:ℝ) < 2)]
+    exact mul_le_mul (by linarith) hxa (abs_nonneg _) (by linarith)
+  have t3 : |2 * v * Ya| ≤ 2 * B * A := by
+    rw [abs_mul, abs_mul, abs_of_pos (by norm_num : (0:ℝ) < 2)]
+    exact mul_le_mul (by linarith) hya (abs_nonneg _) (by linarith)
+  have t4 : |u * u| ≤ B * B := by rw [abs_mul]; exact mul_le_mul ex ex (abs_nonneg _) hB0
+  have t5 : |v * v| ≤ B * B := by rw [abs_mul]; exact mul_le_mul ey ey (abs_nonneg _) hB0
+  have a1 := abs_sub (2 * M * d - 2 * u * Xa - 2 * v * Ya - u * u) (v * v)
+  have a2 := abs_sub (2 * M * d - 2 * u * Xa - 2 * v * Ya) (u * u)
+  have a3 := abs_sub (2 * M * d - 2 * u * Xa) (2 * v * Ya)
+  have a4 := abs_sub (2 * M * d) (2 * u * Xa)
+  linarith
+
+/-- (B) **Pythagoras for projection and rejection, in rounded arithmetic**: `|a|² = |p|² + |r|²` for `p = a.project b`, `r = a.reject b`, up
+    to `2|p|·D + 4·B·|a| + 2·B²` with `B` the every-branch subtraction bound and `D = 2B + |a|(1e-10+1e-14) + 1e-30` the orthogonality bound -/
+theorem project_pythagoras_float {a b : Geonum F} (ha : a.angle.Inv) (hb : b.angle.Inv) (hma : a.MagDom)
+    (hbm : flt (fabs b.mag) e10 = false) (hcb : a.angle.blade + (a.project b).angle.blade + 2 ≤ 2 ^ 39) :
+    |val a.mag * val a.mag - val (a.reject b).mag * val (a.reject b).mag - val (a.project b).mag * val (a.project b).mag|
+      ≤ 2 * val (a.project b).mag
+          * (2 * ((val a.mag + val (a.project b).mag) * (2 / 10 ^ 7 + 11 / 10 * (val (e10 : F)
+              + (40 * ((a.angle.blade + (a.project b).angle.blade + 2 : ℕ) : ℝ) + 170) * (1 / 2 ^ 53))) + 1 / 10 ^ 28 + 2 * val (e10 : F))
+            + (val a.mag * (val (e10 : F) + 1 / 10 ^ 14) + 1 / 10 ^ 30))
+        + 4 * ((val a.mag + val (a.project b).mag) * (2 / 10 ^ 7 + 11 / 10 * (val (e10 : F)
+              + (40 * ((a.angle.blade + (a.project b).angle.blade + 2 : ℕ) : ℝ) + 170) * (1 / 2 ^ 53))) + 1 / 10 ^ 28 + 2 * val (e10 : F)) * val a.mag
+        + 2 * (((val a.mag + val (a.project b).mag) * (2 / 10 ^ 7 + 11 / 10 * (val (e10 : F)
+              + (40 * ((a.angle.blade + (a.project b).angle.blade + 2 : ℕ) : ℝ) + 170) * (1 / 2 ^ 53))) + 1 / 10 ^ 28 + 2 * val (e10 : F))
+          * ((val a.mag + val (a.project b).mag) * (2 / 10 ^ 7 + 11 / 10 * (val (e10 : F)
+              + (40 * ((a.angle.blade + (a.project b).angle.blade + 2 : ℕ) : ℝ) + 170) * (1 / 2 ^ 53))) + 1 / 10 ^ 28 + 2 * val (e10 : F))) := by
+  obtain ⟨M, hX, hY, hM, hfp, hMs⟩ := project_cartesian_float ha hb hma.1 hma.2.1 hbm
+  obtain ⟨hpinv, _, _⟩ := project_angle (a := a) hbm hb
+  have hg := gradeAngle_fin (geometricSub_inv hb ha)
+  obtain ⟨hp0, hp1⟩ := project_mag_bounds hma.1 hma.2.1 hbm hg
+  have hmp : (a.project b).MagDom := ⟨hfp, hp0, le_trans hp1 hma.2.2⟩
+  obtain ⟨s1, s2⟩ := project_add_reject_every_branch_float (b := b) ha hpinv hma hmp hcb
+  have horth := reject_orthogonal_float ha hb hma hbm hcb
+  set B := (val a.mag + val (a.project b).mag) * (2 / 10 ^ 7 + 11 / 10 * (val (e10 : F)
+          + (40 * ((a.angle.blade + (a.project b).angle.blade + 2 : ℕ) : ℝ) + 170) * (1 / 2 ^ 53))) + 1 / 10 ^ 28 + 2 * val (e10 : F) with hB
+  rw [hX] at s1; rw [hY] at s2
+  have he10 := val_e10_pos (F := F)
+  have hB0 : 0 ≤ B := by
+    rw [hB]
+    have h1 : 0 ≤ (val a.mag + val (a.project b).mag) * (2 / 10 ^ 7 + 11 / 10 * (val (e10 : F)
+          + (40 * ((a.angle.blade + (a.project b).angle.blade + 2 : ℕ) : ℝ) + 170) * (1 / 2 ^ 53))) :=
+      mul_nonneg (add_nonneg hma.2.1 hp0) (by positivity)
+    have h28 : (0:ℝ) ≤ 1 / 10 ^ 28 := by positivity
+    linarith
+  have hMabs : |M| = val (a.project b).mag := by
+    rcases hMs with h | h
+    · rw [h, abs_of_nonneg hp0]
+    · rw [h, abs_neg, abs_of_nonneg hp0]
+  have hMM : M * M = val (a.project b).mag * val (a.project b).mag := by
+    rcases hMs with h | h <;> rw [h] <;> ring
+  have hcs : Real.cos (Angle.Tpi b.angle) * Real.cos (Angle.Tpi b.angle) + Real.sin (Angle.Tpi b.angle) * Real.sin (Angle.Tpi b.angle) = 1 := by
+    have := Real.cos_sq_add_sin_sq (Angle.Tpi b.angle); nlinarith
+  have sq : ∀ (m t : ℝ), (m * Real.cos t) * (m * Real.cos t) + (m * Real.sin t) * (m * Real.sin t) = m * m := by
+    intro m t; have := Real.cos_sq_add_sin_sq t; nlinarith
+  have cle : ∀ (m t : ℝ), 0 ≤ m → |m * Real.cos t| ≤ m ∧ |m * Real.sin t| ≤ m := by
+    intro m t hm
+    rw [abs_mul, abs_mul, abs_of_nonneg hm]
+    exact ⟨by calc m * |Real.cos t| ≤ m * 1 := mul_le_mul_of_nonneg_left (Real.abs_cos_le_one t) hm
+                 _ = m := mul_one _,
+           by calc m * |Real.sin t| ≤ m * 1 := mul_le_mul_of_nonneg_left (Real.abs_sin_le_one t) hm
+                 _ = m := mul_one _⟩
+  have hd : |val (a.reject b).mag * Real.cos (Angle.Tpi (a.reject b).angle) * Real.cos (Angle.Tpi b.angle)
+      + val (a.reject b).mag * Real.sin (Angle.Tpi (a.reject b).angle) * Real.sin (Angle.Tpi b.angle)|
+      ≤ 2 * B + (val a.mag * (val (e10 : F) + 1 / 10 ^ 14) + 1 / 10 ^ 30) := horth
+  have key := pyth_real hcs (sq (val a.mag) (Angle.Tpi a.angle)) (sq (val (a.reject b).mag) (Angle.Tpi (a.reject b).angle))
+    hma.2.1 hB0 (cle _ _ hma.2.1).1 (cle _ _ hma.2.1).2 s1 s2 hd
+  rw [hMabs, hMM] at key
+  exact key
 
 end B
 
